@@ -161,12 +161,21 @@ SameOK(e, ln) ==
   /\ RecCount(a) = RecCount(b)
   /\ \A t \in 1..RecCount(a) : RecIndex(a, t) = RecIndex(b, t) /\ RecBytes(a, t) = RecBytes(b, t)
 
+\* the same round on several engines: identical input, identical recovery bytes
+AllEqOK(e, ln) ==
+  \A a \in {Rec[ln + e.refs[1]]} :
+     \A t \in 2..Len(e.refs) : \A b \in {Rec[ln + e.refs[t]]} :
+        /\ SameShape(a, b) /\ a.orig = b.orig /\ a.kind = b.kind /\ a.engine # b.engine
+        /\ RecCount(a) = RecCount(b)
+        /\ \A u \in 1..RecCount(a) : RecIndex(a, u) = RecIndex(b, u) /\ RecBytes(a, u) = RecBytes(b, u)
+
 EventOK(e, ln) ==
   CASE e.ev = "enc"  -> EncOK(e)
     [] e.ev = "dec"  -> DecOK(e)
     [] e.ev = "lin"  -> LinOK(e, ln)
     [] e.ev = "scal" -> ScalOK(e, ln)
     [] e.ev = "same" -> SameOK(e, ln)
+    [] e.ev = "alleq" -> AllEqOK(e, ln)
     [] OTHER -> FALSE        \* an event the specification has no action for (e.g. a panic) is rejected
 
 TraceInv == ph = 1 => \A e \in {Rec[l]} : EventOK(e, l)
